@@ -68,4 +68,9 @@ func SetHashSeed(s uint32) { rtHashSeed = s }
 
 // SetMapStartCap sets the number of alternative starts offered for maps too
 // large to enumerate completely (a multiple of 8; default MaxMapStarts).
-func (c *Ctx) SetMapStartCap(n int) { c.mapCap = n }
+func (c *Ctx) SetMapStartCap(n int) {
+	if n < 8 {
+		n = 8
+	}
+	c.mapCap = n - n%8
+}
